@@ -41,6 +41,10 @@ def queries(tier):
                     qs.append(Query(name, "c02/aio_sched.c", tus=TUS, env=ENV, defs=d,
                                     cdefs=["-DENV_HAVE_YIELD", "-DENV_NO_CV_UNTIL", "-DNNI_EXPIRE_BATCH=2"], unwind=8, timeout=300, allow_pruned=True,
                                     params={"outer": o, "inner": i, "timeout": desc, "yield_point": "symbolic" if inj is None else inj}))
+    for cls, nm in ((0, "fresh"), (1, "stopped"), (2, "zero-timeout"), (3, "aborted")):
+        qs.append(Query("dialer-start-aio-%s" % nm, "c14/dialer_connect.c", tus=["core/list.c", "core/options.c"],
+                        env=["env_alloc.c", "env_misc.c", "env_sync.c", "env_aio.c", "env_libc.c"], defs={"STARTAIO": cls}, unwind=30, timeout=300,
+                        params={"call_site": "nni_dialer_start_aio", "user_aio_state": nm, "connect_result": "any nng_err"}))
     return qs
 
 MANIFEST = {
